@@ -21,7 +21,7 @@
    Region of dinucleotide_shuffle: the Python slice X[i, :, start:end] the code takes (so the
    default end=-1 leaves the last position out; pair counts over any larger window follow from
    the clauses below because the last character of the region and everything outside are kept). *)
-From TM Require Import Base.Prelude Base.OneHot C02.Model.
+From TM Require Import Base.Prelude Base.OneHot Base.PyList C02.Model.
 Open Scope nat_scope.
 
 Inductive call :=
@@ -38,6 +38,28 @@ Inductive call :=
    one-hot (checked there by an exact round trip): the columns are computed here, so validity and
    all counts are still evaluated on the real columns *)
 Definition en (A : nat) (s : list nat) : dna := map (onehot A) s.
+
+(* a list of digits written as the decimal numeral 1d1d2...dk (literals parse much faster) *)
+Fixpoint dg_fuel (fuel : nat) (z : Z) (acc : list nat) : list nat :=
+  match fuel with
+  | O => acc
+  | S f => if (z <? 10)%Z then acc
+           else dg_fuel f (z / 10)%Z (Z.to_nat (z mod 10) :: acc)
+  end.
+Definition dg (z : Z) : list nat := dg_fuel (S (Z.to_nat (Z.log2 z))) z [].
+Definition dn (A : nat) (z : Z) : dna := en A (dg z).
+(* a whole batch of B one-hot rows of length L >= 1 as one numeral of B*L digits; a result
+   [k rows per group]; a family of draws sig[example][shuffle][character], every draw terminated
+   by the digit 9 *)
+Definition dnb (A L : nat) (z : Z) : batch := map (en A) (chunks L (dg z)).
+Definition obn (A L k : nat) (z : Z) : list batch := chunks k (dnb A L z).
+Fixpoint split9 (l cur : list nat) : list (list nat) :=
+  match l with
+  | [] => []
+  | d :: r => if d =? 9 then rev cur :: split9 r [] else split9 r (d :: cur)
+  end.
+Definition sgn (A n : nat) (z : Z) : list (list (list (list nat))) :=
+  chunks n (chunks A (split9 (dg z) [])).
 
 (* shuffle: [sample][example]; dinucleotide_shuffle: [example][sample] *)
 Definition outcome := res (list batch).
